@@ -60,7 +60,7 @@ def r1_cas_loop(ctx, F):
     # the zero test dominates the exchange (a count of 0 means forget is destroying the entry)
     g = [(vf.render(cond, b, short=True), lab) for (cond, lab, u) in v.guards(cas.bb)]
     lt = vf.render(v.call_expr(ld), b, short=True)
-    zero = any(t in ("Eq(0, %s)" % lt, "Eq(%s, 0)" % lt) and lab == 0 for (t, lab) in g)
+    zero = any(t in ("Ne(0, %s)" % lt, "Lt(0, %s)" % lt, "Le(1, %s)" % lt) and lab != 0 for (t, lab) in g)
     ctx.check("R1-cas-loop", "zero-tested", zero, "do_lookup increments a count without having seen it non-zero in this iteration (guards %s)" % [t for (t, l) in g if "load" in t], loc=cas.loc())
     # loop structure: the probe, the load and the exchange are in one loop; the failure edge of the exchange and the
     # zero edge lead back to the probe without leaving the loop
@@ -81,15 +81,15 @@ def r1_cas_loop(ctx, F):
               "do_lookup: after a failed compare-exchange the map is not probed again before the next attempt: a retry can resurrect an entry that a "
               "concurrent forget has already removed", loc=cas.loc())
     # zero edge also re-probes
-    zsw = None
+    tt = []
     for u in b.reachable():
         if b.term(u)[0] == "switch":
-            t = vf.render(v.operand(b.term(u)[1], u, len(b.stmts(u))), b, short=True)
-            if t in ("Eq(0, %s)" % lt, "Eq(%s, 0)" % lt):
-                zsw = u
+            for (lab, tgt) in b.switch_edges(u):
+                c_, l_ = v.switch_cond(u, lab)
+                if vf.render(c_, b, short=True) == "Eq(0, %s)" % lt and l_ != 0:
+                    tt.append(tgt)
     ok = False
-    if zsw is not None:
-        tt = [t for (lab, t) in b.switch_edges(zsw) if lab == "otherwise"]
+    if True:
         if tt:
             reach = b.reach_set(tt[0], avoid={probe.bb})
             ok = not (reach & set(b.return_blocks())) and not any(c.bb in reach for c in live_calls(b) if c.name in ("insert_locked", "compare_exchange"))
